@@ -1,7 +1,7 @@
 //vp:property C31
 //vp:pkg ./model/histogram
 //vp:roots ./util/kahansum
-//vp:bounds bucket-wise addition and subtraction of two float histograms of the same schema (0) - or with the operand at schema 1, reduced to schema 0 first - and the same zero threshold (FloatHistogram.Add / Sub / KahanAdd with addBuckets / kahanAddBuckets): layouts of up to 2 spans per histogram on the positive side, lengths 0..2 (zero-length spans included, also leading), first offset 0..1, later offsets 0..2, the whole case split; bucket counts are small concrete integers (so every sum is exact), the negative side one common bucket; the result holds, at every bucket index, the sum (difference) of the operands' counts, count/sum/zero count add up, and the operand is unchanged
+//vp:bounds bucket-wise addition and subtraction of two float histograms of the same schema (0) - or with the operand at schema 1, reduced to schema 0 first - and the same zero threshold (FloatHistogram.Add / Sub / KahanAdd with addBuckets / kahanAddBuckets): layouts of up to 2 spans per histogram on the positive side, lengths 0..2 (zero-length spans included, also leading), first offset 0..1, later offsets 0..2, the whole case split; bucket counts are small concrete integers (so every sum is exact), the negative side one common bucket; a second harness gives the operand a wider zero bucket (threshold at the upper bound of bucket index 0 or 1), so that the receiver's buckets below it move into the zero count; the result holds, at every bucket index, the sum (difference) of the operands' counts, count/sum/zero count add up, and the operand is unchanged
 //vp:assume concrete small integer counts: floating-point rounding, resolution reduction and zero-threshold reconciliation are outside (see DESIGN: symbolic float arithmetic is out of reach)
 package histogram
 
@@ -111,5 +111,91 @@ func vpH_C31_add_sub_small_integers() {
 	vpAssert(nb == len(r.PositiveBuckets), "result spans match its buckets")
 	ng, _ := vpXValAt(r.NegativeSpans, r.NegativeBuckets, 0)
 	vpAssert(ng == 7+sign*2, "negative side")
+	vpReach("end")
+}
+
+// The same with an operand whose zero bucket is wider than the receiver's.
+func vpH_C31_add_sub_zero_threshold() {
+	aSp, aIdx := vpXLayoutZ("a")
+	bSp, bIdx := vpXLayoutZ("b")
+	av := make([]float64, len(aIdx))
+	bv := make([]float64, len(bIdx))
+	for i := range av {
+		av[i] = float64(16 + i)
+	}
+	for i := range bv {
+		bv[i] = float64(1 + i)
+	}
+	one := []Span{{Offset: 0, Length: 1}}
+	a := &FloatHistogram{Schema: 0, ZeroThreshold: 0.001, ZeroCount: 4, Count: 100, Sum: 8, PositiveSpans: aSp, PositiveBuckets: av, NegativeSpans: one, NegativeBuckets: []float64{7}}
+	// the operand has the wider zero bucket: threshold 1 (= upper bound of bucket index 0) or 2 (bucket index 1);
+	// its own buckets lie above its threshold, so its layout is shifted by that many indexes
+	shift := vpShape("operandThresholdIndex", 1, 2)
+	bSchema := int32(0)
+	if len(bSp) > 0 {
+		bSp[0].Offset += int32(shift)
+	}
+	for j := range bIdx {
+		bIdx[j] += shift
+	}
+	bNeg := []Span{{Offset: int32(shift), Length: 1}}
+	b := &FloatHistogram{Schema: 0, ZeroThreshold: float64(shift), ZeroCount: 1, Count: 10, Sum: 2, PositiveSpans: bSp, PositiveBuckets: bv, NegativeSpans: bNeg, NegativeBuckets: []float64{2}}
+	bCopy := b.Copy()
+	op := vpShape("op", 0, 2) // 0 Add, 1 Sub, 2 KahanAdd
+	var r *FloatHistogram
+	var err error
+	sign := 1.0
+	switch op {
+	case 0:
+		r, _, _, err = a.Copy().Add(b)
+	case 1:
+		r, _, _, err = a.Copy().Sub(b)
+		sign = -1
+	case 2:
+		r = a.Copy()
+		_, _, _, err = r.KahanAdd(b, nil) // the receiver is updated in place; the compensation terms are all zero for exact sums
+	}
+	vpAssert(err == nil, "same schema and threshold: no error")
+	if err != nil {
+		return
+	}
+	vpAssert(b.Equals(bCopy), "the operand is unchanged")
+	// the receiver's buckets inside the wider zero bucket (index < shift, both sides) move into the zero count
+	moved := 7.0 // its negative bucket at index 0
+	for j, k := range aIdx {
+		if k < shift {
+			moved += av[j]
+		}
+	}
+	vpAssert(r.ZeroThreshold == float64(shift), "the result has the wider zero threshold")
+	vpAssert(r.Count == 100+sign*10 && r.ZeroCount == 4+moved+sign*1 && r.Sum == 8+sign*2, "count and sum add up; the zero count also takes the receiver's buckets inside the wider zero bucket")
+	for q := 0; q <= 9; q++ {
+		x, _ := vpXValAt(aSp, av, q)
+		if q < shift {
+			x = 0
+		}
+		y := 0.0
+		for j, k := range bIdx {
+			tq := k
+			if bSchema == 1 {
+				tq = ((k - 1) >> 1) + 1
+			}
+			if tq == q {
+				y += bv[j]
+			}
+		}
+		got, ok := vpXValAt(r.PositiveSpans, r.PositiveBuckets, q)
+		vpAssert(ok, "result spans match its buckets")
+		vpObserve("got", got)
+		vpAssert(got == x+sign*y, "every bucket index holds the sum (difference) of the operands' counts")
+	}
+	nb := 0
+	for _, s := range r.PositiveSpans {
+		nb += int(s.Length)
+	}
+	vpAssert(nb == len(r.PositiveBuckets), "result spans match its buckets")
+	ng0, _ := vpXValAt(r.NegativeSpans, r.NegativeBuckets, 0)
+	ngs, _ := vpXValAt(r.NegativeSpans, r.NegativeBuckets, shift)
+	vpAssert(ng0 == 0 && ngs == sign*2, "negative side")
 	vpReach("end")
 }
